@@ -194,6 +194,18 @@ CHECKS = {
         note="Trusted: TLC, CPython for evaluating rule outputs. The box is complete for variable-vs-constant atoms, a bound otherwise.",
         design_ref="DESIGN.md sections 3.7, 5 (C17)",
     ),
+    "C18": dict(
+        category="model_checking",
+        technique="TLA+ model of import resolution over package trees (Imports.tla): TLC enumerates trees x client import forms and computes the origin of every referenced name; trees materialised on disk, Resolve validated against CPython, object identity compared before / after format_code",
+        text=("Imports.tla: base (optionally with __all__) -> mid (re-export by name / alias / star / module object / redefinition) -> optional top "
+              "-> client (from / alias / star / module / module alias; duplicated, stacked, unused extras, inside a function, after the first def), as "
+              "flat modules, as a package __init__ or as a sub-module with absolute or relative imports; plus the client's own standard-library "
+              "imports (dotted modules, aliases, two statements binding one name). TLC computes Resolve / LastBinding. Each case runs in a fresh "
+              "fork: the tree is written to a temp directory (cwd there), the client is imported, CPython's own __module__/__qualname__ must equal "
+              "Resolve, then the client is formatted and imported next to the original: every referenced object must be the identical object."),
+        note="Trusted: TLC; CPython's import system as ground truth (exit 2 on disagreement with the spec).",
+        design_ref="DESIGN.md sections 3.8, 5 (C18)",
+    ),
     "C20": dict(
         category="model_checking",
         technique="systematic line annotation of rule-firing programs; recorded runs validated by TLC against PipelineTrace.tla (FinalIgnored, SkipIsIdentity); Scheduler.tla scenarios with ignored lines replayed",
